@@ -4,8 +4,16 @@ import json,glob,os,re
 rows=[]
 for d in sorted(glob.glob('/verif/seeded/*/')):
     m=json.load(open(d+'meta.json'))
-    what=m.get('summary') or m['needs_to_manifest']
-    what=re.sub(r'\s+',' ',what)[:170]
+    what=m.get('summary')
+    if not what:
+        try:
+            lines=[l for l in open(d+'meta.txt').read().split('\n') if l.strip()]
+            what=lines[1] if len(lines)>1 else lines[0]
+        except Exception:
+            what=m['needs_to_manifest']
+    what=re.sub(r'\s+',' ',what)
+    what=re.sub(r'^(The change|This change|Change \d+)\s+','',what)
+    if len(what)>230: what=what[:227]+'...' 
     det=m.get('detected_by')
     if det:
         by=det['check']+': '+', '.join('`%s`'%o for o in det['obligations'][:2])
